@@ -69,6 +69,8 @@ class Facet:
     thorough_shards: int = 16
     budget_quick: float = 60.0  # seconds per shard
     budget_thorough: float = 600.0
+    # False for facets whose outcome depends on real thread timing: there an observation that does not repeat is still a violation
+    deterministic: bool = True
     # optional: a finite enumeration instead of a strategy: tier -> list of cases
     enumerate: Callable[[str], list] | None = None
     selftest: Callable[[], None] | None = None
@@ -330,8 +332,11 @@ def shrink(facet: Facet, case: Any, signature: str, budget_s: float, max_evals: 
         return None
 
     d = fails(best)
+    for _ in range(2):
+        if d is None:
+            d = fails(best)
     if d is None:
-        return case, "(flaky: did not reproduce on re-run)", evals
+        return case, "(unreproduced: three immediate re-runs of the same case did not show it)", evals
     best_detail = d
     improved = True
     while improved and time.time() - t0 < budget_s and evals < max_evals:
@@ -494,9 +499,20 @@ def run_check(prop_id: str, tier: str) -> int:
     shrink_budget = 25.0 if tier == "quick" else 120.0
     shrink_total = 90.0 if tier == "quick" else 600.0
     t_shrink = time.time()
+    unreproduced: list = []
     for (facet_name, sig), (_size, case, detail) in sorted(unknown.items(), key=lambda kv: kv[0])[:8]:
         left = shrink_total - (time.time() - t_shrink)
         small, d2, _ = shrink(facets[facet_name], case, sig, max(1.0, min(shrink_budget, left)))
+        if d2.startswith("(unreproduced") and facets[facet_name].deterministic:
+            # A case of a deterministic facet is a pure function of the tree: an observation that three re-runs of the very same case
+            # do not repeat came from outside the case (machine load, a transient I/O error), so it is not a demonstrated violation of
+            # the property.  It is reported and kept in the evidence, and does not decide the verdict.
+            path = write_replay(prop_id, facet_name, seed, tier, small, sig, d2 + " first seen as: " + detail)
+            print(f"UNREPRODUCED property={prop_id} signature={sig} replay={path}\n  first seen as: {detail[:400]}")
+            unreproduced.append({"facet": facet_name, "signature": sig, "first_seen": detail[:600]})
+            continue
+        if d2.startswith("(unreproduced"):
+            d2 = d2 + " first seen as: " + detail
         path = write_replay(prop_id, facet_name, seed, tier, small, sig, d2 if d2.strip() else detail)
         print(f"VIOLATION property={prop_id} replay={path}")
         print(f"  signature: {sig}\n  detail: {(d2 if d2.strip() else detail)[:600]}")
@@ -525,6 +541,7 @@ def run_check(prop_id: str, tier: str) -> int:
             "exhaustive": all(f.enumerate is not None for f in prop.facets) and not budget_exhausted,
             "budget_exhausted": budget_exhausted,
             "unknown_signatures": sorted(s for _, s in unknown),
+            "unreproduced_observations": unreproduced,
         },
         "assumptions": prop.assumptions,
         "wall_s": round(time.time() - t0, 2),
